@@ -15,6 +15,9 @@ from verif.sim import core
 
 PROPERTY = 'C13'
 ENGINE = 'fs-sim'
+ENV_VARIANTS = ['locale-C-ascii']     # the whole single-fault sweep plus seeded worlds once more under an ASCII locale
+ENV_SWEEP = True
+ENV_N = 150
 LEVEL = 'fault_enumeration'
 QUICK_S = 40
 THOROUGH_S = 420
